@@ -57,7 +57,7 @@ def snap(o):
 def call(f, kw):
     with warnings.catch_warnings():
         warnings.simplefilter("ignore")
-        with np.errstate(all="ignore"):
+        with np.errstate(all="ignore"), sut.time_limit():
             return f(**kw)
 
 
@@ -66,7 +66,7 @@ def observe(case, carriers, rng):
         f, kw = sut.build_call(case, *carriers)
     except Exception as e:  # noqa: BLE001
         return sut.err_obs(e)
-    if case["fn"] == "climatology" and rng.random() < 0.6:
+    if case["fn"] == "climatology" and isinstance(kw["config"], list) and rng.random() < 0.6:
         # the documented alternative to a list of mappings: one ClimatologyConfig object, reused across calls
         cfg = qartod.ClimatologyConfig()
         for d in kw["config"]:
